@@ -354,6 +354,9 @@ package protocol
 
 // a value frame handed to the command-data constructor carries at least its 6-byte header
 // (4-byte length, operation byte, flag byte): C13 (no input crashes the server), C15 (well-formed frames)
+//@ func IsLockCommandDataFrame
+//@   ensures result == (len(data) >= 6 && implies(data[5]&0x10 != 0, len(data) >= 8 && data[6] + data[7]*256 <= len(data) - 8))
+//@   modifies nothing
 //@ func NewLockCommandDataFromOriginBytes
 //@   requires C13.frame,C15.frame: len(data) >= 6
 //@   ensures result != nil && fresh(result) && result.Data == data && result.DataFlag == data[5] && result.CommandType == data[4] & 0x3f && result.CommandStage == data[4] >> 6
